@@ -29,6 +29,9 @@ const N_DESCR: usize = 3;
 const N_EMIT: usize = 6;
 
 fn describe(rec: &TcpRecorder, i: usize) {
+    describe_paced(rec, i, true)
+}
+fn describe_paced(rec: &TcpRecorder, i: usize, paced: bool) {
     match i {
         0 => rec.describe_counter("c_m".into(), Some(Unit::Bytes), "counter help".into()),
         // the same name described again, differently: a later client must get the description current when it connects
@@ -37,7 +40,9 @@ fn describe(rec: &TcpRecorder, i: usize) {
             rec.describe_gauge("g_m".into(), Some(Unit::Percent), "gauge help".into());
             // descriptions travel through the same bounded channel as metrics (try_send): let the transport thread take
             // the first one before sending the second, or buffer_size(Some(1)) legitimately drops it ("rate within the buffer")
-            let _ = barrier(rec);
+            if paced {
+                let _ = barrier(rec);
+            }
             rec.describe_histogram("h_m".into(), None, "hist help".into());
         }
     }
@@ -99,6 +104,8 @@ struct Client {
     optional: Vec<u64>,
     open: bool,
     ever: bool,
+    /// connected in the same batch of events as a description: what it is told at connect is not determined
+    meta_unjudged: bool,
 }
 
 fn free_port() -> u16 {
@@ -173,6 +180,9 @@ struct Config {
     buffer: Option<usize>,
     /// answers for the first write calls of the exporter (then Full)
     plan: Vec<(usize, u8)>, // (write index, deviation kind 1 = Short(1), 2 = Short(5), 3 = WouldBlock)
+    /// events [a, b) of the history are performed while the transport thread is parked between two polls (hook
+    /// `verif_hold`): the exporter sees all of them in ONE batch of poll events, in the order they were caused
+    batch: Option<(usize, usize)>,
 }
 
 struct Outcome {
@@ -206,7 +216,7 @@ fn run_history(h: &[Ev], cfg: &Config) -> Outcome {
     if let Err(e) = barrier(&ex.rec) {
         return bad("exporter-does-not-serve", format!("buffer_size({:?}): {}", cfg.buffer, e), 0);
     }
-    let mut clients: Vec<Client> = (0..3).map(|_| Client { stream: None, buf: vec![], metadata_at_connect: vec![], expected: vec![], optional: vec![], open: false, ever: false }).collect();
+    let mut clients: Vec<Client> = (0..3).map(|_| Client { stream: None, buf: vec![], metadata_at_connect: vec![], expected: vec![], optional: vec![], open: false, ever: false, meta_unjudged: false }).collect();
     let mut described: Vec<usize> = Vec::new();
     let mut seqno = 0u64;
     let mut past: Vec<Client> = Vec::new();
@@ -215,6 +225,10 @@ fn run_history(h: &[Ev], cfg: &Config) -> Outcome {
     let mut events: Vec<Ev> = h.to_vec();
     events.push(Ev::Emit(0));
     let mut ei = 0usize;
+    // emits of the current batch so far: a client connecting in the same batch may or may not get them
+    let mut batch_emits: Vec<(usize, u64)> = Vec::new();
+    let mut batch_connected: Vec<usize> = Vec::new();
+    let batch_has_describe = cfg.batch.map(|(a, b)| h[a..b.min(h.len())].iter().any(|e| matches!(e, Ev::Describe(_)))).unwrap_or(false);
     let mut nudges = 0;
     let mut final_nudge = false;
     loop {
@@ -232,10 +246,17 @@ fn run_history(h: &[Ev], cfg: &Config) -> Outcome {
             }
         }
         let ev = &events[ei].clone();
+        let in_batch = cfg.batch.map(|(a, b)| ei >= a && ei < b).unwrap_or(false);
+        if let Some((a, _)) = cfg.batch {
+            if ei == a {
+                ex.rec.verif_hold();
+                batch_emits.clear();
+            }
+        }
         match *ev {
             Ev::Connect(i) => {
                 if clients[i].ever {
-                    let old = std::mem::replace(&mut clients[i], Client { stream: None, buf: vec![], metadata_at_connect: vec![], expected: vec![], optional: vec![], open: false, ever: false });
+                    let old = std::mem::replace(&mut clients[i], Client { stream: None, buf: vec![], metadata_at_connect: vec![], expected: vec![], optional: vec![], open: false, ever: false, meta_unjudged: false });
                     past.push(old);
                 }
                 let s = match TcpStream::connect_timeout(&ex.addr, Duration::from_secs(5)) {
@@ -243,11 +264,18 @@ fn run_history(h: &[Ev], cfg: &Config) -> Outcome {
                     Err(e) => return bad("connect-not-answered", format!("connect failed: {}", e), writes(w0)),
                 };
                 s.set_nonblocking(true).unwrap();
-                clients[i] = Client { stream: Some(s), buf: vec![], metadata_at_connect: described.clone(), expected: vec![], optional: vec![], open: true, ever: true };
+                clients[i] = Client { stream: Some(s), buf: vec![], metadata_at_connect: described.clone(), expected: vec![], optional: vec![], open: true, ever: true, meta_unjudged: false };
+                if in_batch {
+                    // the order in which the exporter handles the listener and the waker within one batch is its own
+                    clients[i].expected = batch_emits.clone();
+                    clients[i].optional = batch_emits.iter().map(|e| e.1).collect();
+                    clients[i].meta_unjudged = batch_has_describe;
+                    batch_connected.push(i);
+                }
             }
             Ev::ConnectEmit(i, k) => {
                 if clients[i].ever {
-                    let old = std::mem::replace(&mut clients[i], Client { stream: None, buf: vec![], metadata_at_connect: vec![], expected: vec![], optional: vec![], open: false, ever: false });
+                    let old = std::mem::replace(&mut clients[i], Client { stream: None, buf: vec![], metadata_at_connect: vec![], expected: vec![], optional: vec![], open: false, ever: false, meta_unjudged: false });
                     past.push(old);
                 }
                 let s = match TcpStream::connect_timeout(&ex.addr, Duration::from_secs(5)) {
@@ -255,7 +283,7 @@ fn run_history(h: &[Ev], cfg: &Config) -> Outcome {
                     Err(e) => return bad("connect-not-answered", format!("connect failed: {}", e), writes(w0)),
                 };
                 s.set_nonblocking(true).unwrap();
-                clients[i] = Client { stream: Some(s), buf: vec![], metadata_at_connect: described.clone(), expected: vec![], optional: vec![], open: true, ever: true };
+                clients[i] = Client { stream: Some(s), buf: vec![], metadata_at_connect: described.clone(), expected: vec![], optional: vec![], open: true, ever: true, meta_unjudged: false };
                 seqno += 1;
                 emit(&ex.rec, k, seqno);
                 for (ci, c) in clients.iter_mut().enumerate().filter(|(_, c)| c.open) {
@@ -284,7 +312,7 @@ fn run_history(h: &[Ev], cfg: &Config) -> Outcome {
                 clients[i].open = false;
             }
             Ev::Describe(d) => {
-                describe(&ex.rec, d);
+                describe_paced(&ex.rec, d, !in_batch);
                 {
                     described.push(d);
                 }
@@ -292,15 +320,26 @@ fn run_history(h: &[Ev], cfg: &Config) -> Outcome {
             Ev::Emit(k) => {
                 seqno += 1;
                 emit(&ex.rec, k, seqno);
-                if clients.iter().any(|c| c.open) {
-                    for c in clients.iter_mut().filter(|c| c.open) {
-                        c.expected.push((k, seqno));
+                if in_batch {
+                    batch_emits.push((k, seqno));
+                }
+                for (ci, c) in clients.iter_mut().enumerate().filter(|(_, c)| c.open) {
+                    c.expected.push((k, seqno));
+                    if in_batch && batch_connected.contains(&ci) {
+                        c.optional.push(seqno);
                     }
                 }
             }
         }
-        if let Err(e) = barrier(&ex.rec) {
-            return bad("exporter-does-not-serve", format!("after event {} ({:?}) of {:?}: {}", ei, ev, events, e), writes(w0));
+        let last_of_batch = cfg.batch.map(|(_, b)| ei + 1 == b).unwrap_or(false);
+        if last_of_batch {
+            ex.rec.verif_release();
+            batch_connected.clear();
+        }
+        if !in_batch || last_of_batch {
+            if let Err(e) = barrier(&ex.rec) {
+                return bad("exporter-does-not-serve", format!("after event {} ({:?}) of {:?} (batch {:?}): {}", ei, ev, events, cfg.batch, e), writes(w0));
+            }
         }
         ei += 1;
     }
@@ -316,7 +355,7 @@ fn run_history(h: &[Ev], cfg: &Config) -> Outcome {
             drain(c);
         }
         let complete = clients.iter().filter(|c| c.open).all(|c| match pbwire::split_stream(&c.buf) {
-            Ok((frames, 0)) => frames.iter().filter(|f| matches!(f, Frame::Metric { .. })).count() >= c.expected.len() - c.optional.len() && frames.iter().filter(|f| matches!(f, Frame::Metadata { .. })).count() >= metadata_for(&c.metadata_at_connect).len().min(meta_cap),
+            Ok((frames, 0)) => frames.iter().filter(|f| matches!(f, Frame::Metric { .. })).count() >= c.expected.len() - c.optional.len() && frames.iter().filter(|f| matches!(f, Frame::Metadata { .. })).count() >= if c.meta_unjudged { 0 } else { metadata_for(&c.metadata_at_connect).len().min(meta_cap) },
             Ok(_) => false,
             Err(_) => true,
         });
@@ -359,7 +398,7 @@ fn run_history(h: &[Ev], cfg: &Config) -> Outcome {
         let complete = c.open;
         if complete && !cfg.plan.iter().any(|p| p.1 != 0) || big_buffer {
             // metadata is only guaranteed complete when nothing was discarded for the client
-            if complete && got_meta != want_meta && (big_buffer || !cfg.plan.iter().any(|p| p.1 != 0)) {
+            if complete && !c.meta_unjudged && got_meta != want_meta && (big_buffer || !cfg.plan.iter().any(|p| p.1 != 0)) {
                 return bad("metadata-at-connect-wrong", format!("client {}: metadata frames {:?}, expected {:?} ;; history {:?} config {:?}", ci, got_meta, want_meta, h, cfg), w);
             }
         }
@@ -480,7 +519,7 @@ fn sweep(ctx: &Ctx, res: &mut PartResult, len: usize, nclients: usize, buffer: O
             break;
         }
         // deviation bound 0
-        let base = Config { buffer, plan: vec![] };
+        let base = Config { buffer, plan: vec![], batch: None };
         let o = run_history(h, &base);
         done += 1;
         res.executions += 1;
@@ -519,7 +558,7 @@ fn sweep(ctx: &Ctx, res: &mut PartResult, len: usize, nclients: usize, buffer: O
                         continue;
                     }
                 }
-                let o = run_history(h, &Config { buffer, plan: p.clone() });
+                let o = run_history(h, &Config { buffer, plan: p.clone(), batch: None });
                 done += 1;
                 res.executions += 1;
                 res.transitions += h.len() as u64 + 1;
@@ -535,6 +574,68 @@ fn sweep(ctx: &Ctx, res: &mut PartResult, len: usize, nclients: usize, buffer: O
     res.distinct_outcomes = states.len();
     res.bound = json!({"max_events": len, "clients": nclients, "buffer_size": format!("{:?}", buffer), "write_deviation_bound": dev_bound, "deviations_on_histories_up_to": dev_len, "histories_total": hs.len(), "shard": format!("{}/{}", shard, shards)});
     res.sample(json!({"history": format!("{:?}", hs[hs.len() / 2]), "buffer": format!("{:?}", buffer)}));
+}
+
+/// Batched histories: the same histories, with every contiguous run of >= 2 events performed while the transport thread
+/// is parked between two polls, so that the exporter meets them in ONE batch of poll events (a metric wake-up, an accept
+/// and a client's reset side by side), in the order they were caused. Runs whose channel traffic exceeds the buffer are
+/// left out (the bounded channel legitimately drops then); no deviating write answers here.
+fn batched(ctx: &Ctx, res: &mut PartResult, len: usize, nclients: usize, buffer: Option<usize>, shard: usize, shards: usize) {
+    res.engine = "E4 enumeration of client/emit event histories with every contiguous run of events delivered to the transport thread as one poll batch".into();
+    let mut states = vseq::States::new();
+    let hs: Vec<Vec<Ev>> = (2..=len).flat_map(|l| histories(l, nclients)).collect();
+    let replay = ctx.replay.clone();
+    let mut n = 0usize;
+    let mut total = 0usize;
+    'outer: for h in hs.iter() {
+        for a in 0..h.len() {
+            for b in a + 2..=h.len() {
+                let run = &h[a..b];
+                if run.iter().any(|e| matches!(e, Ev::ConnectEmit(..))) {
+                    continue;
+                }
+                let msgs: usize = run.iter().map(|e| match e { Ev::Emit(_) => 1, Ev::Describe(1) => 2, Ev::Describe(_) => 1, _ => 0 }).sum();
+                if buffer.map(|cap| msgs > cap).unwrap_or(false) {
+                    continue;
+                }
+                // a run of reads only changes nothing for the exporter
+                if run.iter().all(|e| matches!(e, Ev::Read(_))) {
+                    continue;
+                }
+                total += 1;
+                if (total - 1) % shards != shard {
+                    continue;
+                }
+                if let Some(rp) = &replay {
+                    if rp["history"] != json!(format!("{:?}", h)) || rp["batch"] != json!([a, b]) {
+                        continue;
+                    }
+                }
+                if ctx.over_budget() {
+                    res.cap_hit = Some("budget (cpu time of the part)".into());
+                    res.exhaustive = false;
+                    break 'outer;
+                }
+                let o = run_history(h, &Config { buffer, plan: vec![], batch: Some((a, b)) });
+                n += 1;
+                res.executions += 1;
+                res.transitions += h.len() as u64 + 1;
+                states.add(&(o.summary.clone(), b - a));
+                if let Some((sig, msg)) = o.bad {
+                    res.violation(&sig, format!("[events {}..{} in one poll batch] {}", a, b, msg), json!({"history": format!("{:?}", h), "batch": [a, b]}));
+                    if sig == "exporter-does-not-serve" && n < 3 {
+                        res.exhaustive = false;
+                        res.cap_hit = Some("the exporter never served: remaining histories skipped".into());
+                        break 'outer;
+                    }
+                }
+            }
+        }
+    }
+    res.states = states.len();
+    res.distinct_outcomes = states.len();
+    res.bound = json!({"max_events": len, "clients": nclients, "buffer_size": format!("{:?}", buffer), "batched_runs_total": total, "shard": format!("{}/{}", shard, shards)});
+    res.sample(json!({"history": "[Connect(0), Connect(1), Emit(0), Reset(0)]", "batch": [2, 4], "meaning": "the metric wake-up and client 0's reset reach the transport thread in one poll batch; client 1 must keep receiving"}));
 }
 
 /// one scripted history with real back-pressure: a client stops reading until the exporter really gets EAGAIN
@@ -583,14 +684,14 @@ fn backpressure(res: &mut PartResult, buffer: Option<usize>) {
         if i % 2 == 0 {
             extra_slow.push(c);
         } else {
-            extra_fast.push(Client { stream: Some(c), buf: vec![], metadata_at_connect: vec![], expected: vec![], optional: vec![], open: true, ever: true });
+            extra_fast.push(Client { stream: Some(c), buf: vec![], metadata_at_connect: vec![], expected: vec![], optional: vec![], open: true, ever: true, meta_unjudged: false });
         }
     }
     let fast = TcpStream::connect(ex.addr).unwrap();
     fast.set_nonblocking(true).unwrap();
     let _ = barrier(&ex.rec);
     let n = 6000u64;
-    let mut fast_c = Client { stream: Some(fast), buf: vec![], metadata_at_connect: vec![], expected: vec![], optional: vec![], open: true, ever: true };
+    let mut fast_c = Client { stream: Some(fast), buf: vec![], metadata_at_connect: vec![], expected: vec![], optional: vec![], open: true, ever: true, meta_unjudged: false };
     let fat = "x".repeat(3000);
     let fat_counter = ex.rec.register_counter(&Key::from_parts("c_m", vec![Label::new("pad", fat.clone())]), &META);
     let emit = |_: &TcpRecorder, _: usize, s: u64| fat_counter.increment(s);
@@ -606,7 +707,7 @@ fn backpressure(res: &mut PartResult, buffer: Option<usize>) {
             drain(c);
         }
     }
-    let mut slow_c = Client { stream: Some(slow), buf: vec![], metadata_at_connect: vec![], expected: vec![], optional: vec![], open: true, ever: true };
+    let mut slow_c = Client { stream: Some(slow), buf: vec![], metadata_at_connect: vec![], expected: vec![], optional: vec![], open: true, ever: true, meta_unjudged: false };
     // now the slow client reads everything; keep nudging so that the exporter drives its connection
     for s in n + 1..=n + 200 {
         drain(&mut slow_c);
@@ -771,6 +872,15 @@ fn parts(ctx: &Ctx) -> Vec<PartSpec> {
                 v.push(PartSpec::new(&format!("histories-len6-3clients-buffer{}-shard{}", bn, s), json!({"len": 6, "clients": 3, "buffer": bj, "dev": if bv == Some(1024) { 2 } else { 1 }, "devlen": 4, "shard": s, "shards": shards})).budget(b));
             }
         }
+        if ctx.quick() {
+            for sh in 0..3 {
+                v.push(PartSpec::new(&format!("batched-len4-2clients-buffer{}-shard{}", bn, sh), json!({"batched": true, "len": 4, "clients": 2, "buffer": bj, "shard": sh, "shards": 3})).budget(b));
+            }
+        } else {
+            for sh in 0..14 {
+                v.push(PartSpec::new(&format!("batched-len5-3clients-buffer{}-shard{}", bn, sh), json!({"batched": true, "len": 5, "clients": 3, "buffer": bj, "shard": sh, "shards": 14})).budget(b));
+            }
+        }
         if ctx.quick() && (bv == Some(1) || bv == Some(2)) {
             // two deviating answers on the shortest fan-out histories: partial write followed by would-block etc.
             v.push(PartSpec::new(&format!("histories-len3-1client-buffer{}-dev2", bn), json!({"len": 3, "clients": 1, "buffer": bj, "dev": 2, "devlen": 3, "shard": 0, "shards": 1})).budget(b));
@@ -811,7 +921,9 @@ fn run(ctx: &Ctx, spec: &PartSpec) -> PartResult {
     let mut res = PartResult::new(&spec.name, "");
     NET.store(spec.arg["net"].as_u64().unwrap_or(0) as usize, std::sync::atomic::Ordering::SeqCst);
     let buffer = spec.arg["buffer"].as_u64().map(|x| x as usize);
-    if spec.arg["unaided"].as_bool() == Some(true) {
+    if spec.arg["batched"].as_bool() == Some(true) {
+        batched(ctx, &mut res, spec.arg["len"].as_u64().unwrap_or(4) as usize, spec.arg["clients"].as_u64().unwrap_or(2) as usize, buffer, spec.arg["shard"].as_u64().unwrap_or(0) as usize, spec.arg["shards"].as_u64().unwrap_or(1) as usize);
+    } else if spec.arg["unaided"].as_bool() == Some(true) {
         unaided_delivery(&mut res, buffer);
     } else if spec.arg["bp"].as_bool() == Some(true) {
         backpressure(&mut res, buffer);
@@ -825,7 +937,7 @@ fn main() {
     driver::main(CheckDef {
         prop: "C11",
         level: "model_checking",
-        rule: "every well-formed history of at most N events over {connect(i), connect(i) immediately followed by an emit (no barrier: the accept and the metric can share a wake-up), read(i), close(i), reset(i) (SO_LINGER 0), describe(counter | gauge + histogram), emit(6 operations incl. labels)} with 2-3 clients, for buffer_size in {Some(1), Some(2), Some(1024), None}, against a fresh real exporter (public TcpBuilder::build) with a quiescence barrier after every event (wake; wait for a fully processed batch; twice), plus for fan-out histories every assignment of at most d deviating answers {Short(1), Short(5), WouldBlock} to the exporter's first write calls (deviation-bounded, default Full); every client's byte stream is decoded by an independent protobuf wire parser: whole frames only, metadata known at connect first, then exactly the emits issued while connected, in order, intact, no duplicates (with a small buffer and held-back writes only older frames may be missing); one scripted real back-pressure history per buffer config; per buffer config 12 rounds of two back-to-back emits awaited with no other wake-up source (lost wake-ups); distinct = distinct per-client delivery summaries",
+        rule: "every well-formed history of at most N events over {connect(i), connect(i) immediately followed by an emit (no barrier: the accept and the metric can share a wake-up), read(i), close(i), reset(i) (SO_LINGER 0), describe(counter | gauge + histogram), emit(6 operations incl. labels)} with 2-3 clients, for buffer_size in {Some(1), Some(2), Some(1024), None}, against a fresh real exporter (public TcpBuilder::build) with a quiescence barrier after every event (wake; wait for a fully processed batch; twice), plus for fan-out histories every assignment of at most d deviating answers {Short(1), Short(5), WouldBlock} to the exporter's first write calls (deviation-bounded, default Full); every client's byte stream is decoded by an independent protobuf wire parser: whole frames only, metadata known at connect first, then exactly the emits issued while connected, in order, intact, no duplicates (with a small buffer and held-back writes only older frames may be missing); the same histories with every contiguous run of >= 2 events delivered to the transport thread as ONE poll batch (the thread is parked between two polls by a hook while the harness causes them; runs whose channel traffic exceeds the buffer excluded); one scripted real back-pressure history per buffer config; per buffer config 12 rounds of two back-to-back emits awaited with no other wake-up source (lost wake-ups); distinct = distinct per-client delivery summaries",
         assumptions: &["kernel / mio readiness order inside one epoll batch is not enumerated: one harness event at a time, exporter run to quiescence in between", "Interrupted is not in the write-answer alphabet (a non-blocking socket write cannot return EINTR on Linux)", "every history ends with one extra emit so that frames held back by an injected short or would-block answer are driven out"],
         parts,
         run,
